@@ -65,64 +65,97 @@ func c08ValidCP(proto, cp string) bool {
 	return false
 }
 
-// predict returns (shouldSucceed, newModel, resync) for an admin op; resync=true means the
-// property does not fix the post-state (empty batch) and the model takes it from the queries.
-func (m pauseModel) predict(w *World, s *MsgSpec) (bool, pauseModel, bool) {
+// adminVerdict: what the PROPERTY demands of an admin message in a given state.
+//   Must = "fail"    the message must fail (non-authority signer) and change nothing;
+//   Must = "succeed" valid content, every named element changes: must succeed, post-state = Target;
+//   Must = "either"  valid content but some named element is already in the requested state (or repeated in the
+//                    batch): the property only says the sets are left unchanged / a batch is applied entirely or
+//                    not at all — it may fail (nothing changes) or succeed (post-state = Target, the whole batch);
+//   Must = "free"    content whose validity the property does not fix (unknown names, malformed or over-long ids,
+//                    more than 100 ids, empty batch): it may fail (nothing changes) or succeed (the model then
+//                    takes the post-state from the queries and keeps checking enforcement <=> queries).
+type adminVerdict struct {
+	Must   string
+	Target pauseModel
+}
+
+func (m pauseModel) verdict(w *World, s *MsgSpec) adminVerdict {
 	if s.Signer != w.Authority {
-		return false, m, false
+		return adminVerdict{"fail", m}
 	}
 	switch s.RPC {
 	case "PauseProtocol", "UnpauseProtocol":
 		if !supportedProtocols[s.Proto] {
-			return false, m, false
+			return adminVerdict{"free", m}
 		}
+		n := m.clone()
 		if s.RPC == "PauseProtocol" {
-			if m.P[s.Proto] {
-				return false, m, false
-			}
-			n := m.clone()
 			n.P[s.Proto] = true
-			return true, n, false
+		} else {
+			delete(n.P, s.Proto)
 		}
-		if !m.P[s.Proto] {
-			return false, m, false
+		if m.P[s.Proto] == (s.RPC == "PauseProtocol") {
+			return adminVerdict{"either", n} // redundant
 		}
-		n := m.clone()
-		delete(n.P, s.Proto)
-		return true, n, false
+		return adminVerdict{"succeed", n}
 	case "PauseCrossChains", "UnpauseCrossChains":
-		if !supportedProtocols[s.Proto] {
-			return false, m, false
+		if !supportedProtocols[s.Proto] || len(s.CPs) > 100 || len(s.CPs) == 0 {
+			return adminVerdict{"free", m}
 		}
-		if len(s.CPs) > 100 {
-			return false, m, false
-		}
-		if len(s.CPs) == 0 {
-			return false, m, true // meaning of an empty batch is not fixed by the property
-		}
-		n := m.clone()
 		for _, cp := range s.CPs {
 			if !c08ValidCP(s.Proto, cp) {
-				return false, m, false
+				return adminVerdict{"free", m}
 			}
 		}
+		n := m.clone()
+		redundant := false
+		seen := map[string]bool{}
 		for _, cp := range s.CPs {
 			k := s.Proto + "|" + cp
+			if seen[k] || m.CC[k] == (s.RPC == "PauseCrossChains") {
+				redundant = true
+			}
+			seen[k] = true
 			if s.RPC == "PauseCrossChains" {
-				if n.CC[k] { // already paused, or repeated inside the batch
-					return false, m, false
-				}
 				n.CC[k] = true
 			} else {
-				if !n.CC[k] {
-					return false, m, false
-				}
 				delete(n.CC, k)
 			}
 		}
-		return true, n, false
+		if redundant {
+			return adminVerdict{"either", n}
+		}
+		return adminVerdict{"succeed", n}
 	}
-	return false, m, false
+	return adminVerdict{"free", m}
+}
+
+// step: the model after the message, given whether it succeeded.
+func (m pauseModel) step(w *World, s *MsgSpec, succeeded bool, post sdk.Context) pauseModel {
+	v := m.verdict(w, s)
+	if !succeeded {
+		return m
+	}
+	if v.Must == "free" || v.Must == "fail" {
+		if q, err := w.pauseSetsFromQueries(post); err == nil {
+			return q
+		}
+		return m
+	}
+	return v.Target
+}
+
+// predict keeps the old three-valued interface for callers that only embed the pause model (C09):
+// (must succeed?, target, outcome-not-fixed?)
+func (m pauseModel) predict(w *World, s *MsgSpec) (bool, pauseModel, bool) {
+	v := m.verdict(w, s)
+	switch v.Must {
+	case "succeed":
+		return true, v.Target, false
+	case "fail":
+		return false, m, false
+	}
+	return false, m, true
 }
 
 // modelFromQueries reads the pause sets through the query service (used for resync and comparison).
@@ -247,40 +280,29 @@ func checkC08(tier string) *Report {
 	x := &Explorer{Rep: rep, Prefix: alpha, Depth: -1}
 	x.ModelInit = func(w *World) any { return pauseModel{P: map[string]bool{}, CC: map[string]bool{}} }
 	x.ModelStep = func(w *World, model any, op Op, res OpResult, pre, post sdk.Context) any {
-		m := model.(pauseModel)
-		ok, n, resync := m.predict(w, op.Msg)
-		if resync {
-			q, err := w.pauseSetsFromQueries(post)
-			if err == nil {
-				return q
-			}
-			return m
-		}
-		if ok {
-			return n
-		}
-		return m
+		return model.(pauseModel).step(w, op.Msg, res.Succeeded(), post)
 	}
 	x.OnTransition = func(wk *Worker, n Node, op Op, res OpResult, pre, post sdk.Context, pm, qm any) {
 		w := wk.W
 		m := pm.(pauseModel)
-		want, _, resync := m.predict(w, op.Msg)
+		v := m.verdict(w, op.Msg)
 		got := res.Succeeded()
 		replay := func() []byte {
-			if resync {
-				return mustJSON(map[string]any{"ops": append(n.Ops(alpha), op)})
+			if v.Must == "succeed" || v.Must == "fail" {
+				return mustJSON(map[string]any{"ops": append(n.Ops(alpha), op), "expect": []replayExpect{{Kind: "last_success", Want: v.Must == "succeed"}, {Kind: "no_panic", Want: true}}})
 			}
-			return mustJSON(map[string]any{"ops": append(n.Ops(alpha), op), "expect": []replayExpect{{Kind: "last_success", Want: want}, {Kind: "no_panic", Want: true}}})
+			return mustJSON(map[string]any{"ops": append(n.Ops(alpha), op)})
 		}
 		sig := strings.Join(append(pathLabels(alpha, n.Path), op.Label), " ; ")
 		if res.Msg != nil && res.Msg.Panic != "" {
 			rep.Violate(Violation{Kind: "admin-panic", What: "admin message panicked: " + res.Msg.Panic + " after " + sig, Sig: sig, Replay: replay()})
 			return
 		}
-		if !resync && want != got {
+		if (v.Must == "succeed" && !got) || (v.Must == "fail" && got) {
 			rep.Violate(Violation{Kind: "admin-outcome", Sig: sig, Replay: replay(),
-				What: fmt.Sprintf("model %s: %s expected success=%v, got success=%v (err=%q)", m, op.Label, want, got, res.Msg.Err)})
+				What: fmt.Sprintf("model %s: %s must %s, got success=%v (err=%q)", m, op.Label, v.Must, got, res.Msg.Err)})
 		}
+		rep.Outcome("verdict-" + v.Must)
 		preKey, postKey := w.StateKey(pre), w.StateKey(post)
 		if !got {
 			rep.Outcome("admin-refused")
